@@ -71,7 +71,7 @@ def cases(draw):
         faults = [[i, "late", 0] for i in range(n) if i not in prompt]
         damage, second = [], []
         second_used = second_used or "delete"
-    return {"k": k, "n": n, "seg": seg, "size": size, "servers": servers, "place": place, "damage": damage, "faults": faults, "down": down,
+    return {"hsalt": draw(st.integers(0, 15)), "k": k, "n": n, "seg": seg, "size": size, "servers": servers, "place": place, "damage": damage, "faults": faults, "down": down,
             "guess": draw(st.sampled_from([None, None, None, 16, 200])), "second": second, "second_used": second_used}
 
 
